@@ -33,6 +33,8 @@ DESIGNS = {
 # neighbouring walls / gaps must be visible
 DUCTS = {'1': dict(ducts=1), '2f': dict(ducts=2, bypass_fraction=0.08, duct_t=[0.002, 0.003]),
          '2s': dict(ducts=2, bypass_fraction=0.0, duct_t=[0.002, 0.003]),
+         # a trickle through the bypass (1 % of the assembly flow: small, not stagnant)
+         '2t': dict(ducts=2, bypass_fraction=0.01, duct_t=[0.002, 0.003]),
          '3': dict(ducts=3, bypass_fraction=0.1, duct_t=[0.0015, 0.0025, 0.003], byp_t=[0.0025, 0.0035]),
          '3s': dict(ducts=3, bypass_fraction=0.0, duct_t=[0.0015, 0.0025, 0.003], byp_t=[0.0025, 0.0035]),
          # outer bypass gap narrower than the inner one (the per-gap mass fluxes are then ordered the other way)
@@ -174,10 +176,12 @@ def cases_sweep(tier):
                 c = dict(base)
                 c[k] = v
                 out.append(c)
-        for du in ('1', '2f', '2s', '3'):
+        for du in ('1', '2f', '2s', '3', '2t'):
             for st in ('multi',):
                 for wall in ('none', 'flow'):
                     out.append(dict(base, ducts=du, structure=st, wall=wall))
+        for re in ('lam', 'turb'):
+            out.append(dict(base, ducts='2t', re=re, wall='none'))
         for du in ('1', '2f'):
             for cf in (1.0, 0.5):
                 out.append(dict(base, ducts=du, structure='multi', wall='none', planes='near', cf=cf))
@@ -207,7 +211,7 @@ def cases_sweep(tier):
                                 out.append(dict(design=d, ducts=du, fam=list(fam), re=re,
                                                 power=pw, wall=wall, structure='bundle'))
         for d in ('d2', 'd3'):
-            for du in ('1', '2f', '2s', '3'):
+            for du in ('1', '2f', '2s', '3', '2t'):
                 for st in ('multi', 'lf-simple', 'lf-6node'):
                     for cf in (1.0, 0.5, 0.1):
                         for wall in ('none', 'flow', 'duct_average'):
